@@ -220,3 +220,50 @@ def r18d(ctx, rep, rule="R18d"):
                      "contains it" % chr(i), [ii.span])
         else:
             rep.ok(rule, key, "the decoder's escape introducer %r is escaped by the encoder" % chr(i), [ii.span])
+
+
+def r11f(ctx, rep, rule="R11f"):
+    facts = ctx["facts"]
+    rep.rule(rule, "characters that start a bracket, quote, hash or string token never continue an identifier: the characters "
+             "lex::scan dispatches to scan_simple_token, scan_hash_token and scan_string are disjoint from the characters the "
+             "identifier predicates (is_initial_identifier, is_special_subsequent, is_subsequent_identifier) accept by name. "
+             "Otherwise the opener of `a#(b)` or `x(y)` is swallowed by the preceding atom and the token stream no longer "
+             "matches the text's bracket structure.")
+    scan = need(rep, rule, facts, "marwood::lex::scan")
+    if scan is None:
+        return
+    starters = {}
+    for bb, arms, other, t in char_switches(scan):
+        for v, tg in arms.items():
+            calls, _ = arm_effects(scan, tg, stop={other}, limit=3)
+            if calls and calls[0] in ("marwood::lex::scan_simple_token", "marwood::lex::scan_hash_token", "marwood::lex::scan_string"):
+                starters[v] = calls[0].rsplit("::", 1)[-1]
+    rep.floor(rule, "token-starting characters in lex::scan's dispatch", len(starters), 11)
+    named = {}
+    n_pred = 0
+    for nm in ("is_initial_identifier", "is_special_subsequent", "is_subsequent_identifier", "is_special_initial", "is_peculiar_identifier"):
+        f = facts.fn("marwood::lex::" + nm)
+        if f is None:
+            continue
+        n_pred += 1
+        for bb, j, st in f.stmts():
+            rv = st["rv"]
+            if rv["k"] == "bin" and rv["op"] == "Eq":
+                for o in (rv["a"], rv["b"]):
+                    c = op_const(o)
+                    if c is not None and c.get("ty") == "char" and "int" in c:
+                        named.setdefault(c["int"], set()).add(nm)
+        for bb, arms, other, t in char_switches(f):
+            for v in arms:
+                named.setdefault(v, set()).add(nm)
+    rep.floor(rule, "identifier predicates of the scanner", n_pred, 3)
+    clash = sorted(set(starters) & set(named))
+    key = "%s|starters-vs-identifier-characters" % rule
+    if clash:
+        rep.fail(rule, key, "the character(s) %s start a token of their own in lex::scan (%s) but are also accepted inside "
+                 "identifiers by %s: directly after an atom they are absorbed into it" % (
+                     ", ".join(repr(chr(c)) for c in clash), ", ".join(sorted({starters[c] for c in clash})),
+                     ", ".join(sorted(set().union(*(named[c] for c in clash))))), [scan.span])
+    else:
+        rep.ok(rule, key, "the %d token-starting characters are disjoint from the %d characters the identifier predicates name" % (
+            len(starters), len(named)), [scan.span])
